@@ -1479,6 +1479,12 @@ func (s *S3Proxy) ChangeBucketOwner(ctx context.Context, bucket string, acl []by
 			return err
 		}
 		defer resp.Body.Close()
+		// a refusal of the endpoint is an S3 error document: hand it on as what it is
+		// (as a plain error it reached the client as 500 InternalError)
+		var e struct{ Code, Message string }
+		if xml.Unmarshal(body, &e) == nil && e.Code != "" {
+			return s3err.APIError{Code: e.Code, Description: e.Message, HTTPStatusCode: resp.StatusCode}
+		}
 		return fmt.Errorf("%v", string(body))
 	}
 
